@@ -36,10 +36,13 @@ class PostOrderIterator(Iterator[Block]):
             self.stack.append((block, True))
             term = block.last_op
             if isinstance(term, Operation) and term.has_trait(IsTerminator()):
-                self.stack.extend(
-                    (x, False) for x in reversed(term.successors) if x not in self.seen
+                # deduplicate successors so that a block reached through several
+                # edges of the same terminator is pushed (and yielded) only once
+                successors = tuple(
+                    x for x in dict.fromkeys(term.successors) if x not in self.seen
                 )
-                self.seen.update(term.successors)
+                self.stack.extend((x, False) for x in reversed(successors))
+                self.seen.update(successors)
             # stack cannot be empty here
             (block, visited) = self.stack.pop()
         return block
